@@ -7,6 +7,7 @@ INVARIANT LawClosedContains
 INVARIANT LawClosedMonotone
 INVARIANT LawClosedDomain
 INVARIANT LawClosedWidening
+INVARIANT LawTimeUnbounded
 INVARIANT LawWitness
 INVARIANT LawProbesCoverVertices
 INVARIANT LawSomeProbeOutside
